@@ -537,6 +537,7 @@ pub fn exec(c: &mut Case, w: &mut World, op: &FOp) -> bool {
         c.sit("unsupported_pair_call");
     }
     let mut ok = true;
+    marker("begin", c.idx, w.top());
     // ------------------------------------------------------------------ perform + result oracle
     let mut top_expected: Option<Tree> = Some(before[w.top()].clone()); // None = adopt (validated separately)
     match op {
@@ -1055,6 +1056,7 @@ pub fn exec(c: &mut Case, w: &mut World, op: &FOp) -> bool {
             }
         }
     }
+    marker("end", c.idx, w.top());
     // ------------------------------------------------------------------ M-fs: on-disk effects
     let after = match w.snapshot() {
         Ok(s) => s,
@@ -1277,7 +1279,19 @@ pub fn run_history(c: &mut Case, focus: Focus) {
     w.cleanup();
 }
 
+use std::sync::atomic::{AtomicBool, Ordering};
 use std::sync::OnceLock;
+static MARKERS: AtomicBool = AtomicBool::new(false);
+/// M-sys: when enabled (strace lane), every filesystem operation is bracketed by two marker
+/// syscalls (`stat` of a path that does not exist) that the offline strace checker keys on.
+pub fn enable_markers() {
+    MARKERS.store(true, Ordering::Relaxed);
+}
+fn marker(kind: &str, case: u64, top: usize) {
+    if MARKERS.load(Ordering::Relaxed) {
+        let _ = std::fs::metadata(format!("/VERIF_MARK/{}/{}/{}", kind, case, top));
+    }
+}
 static SCRATCH: OnceLock<PathBuf> = OnceLock::new();
 pub fn set_scratch(p: PathBuf) {
     let _ = SCRATCH.set(p);
